@@ -2,6 +2,7 @@ package main
 
 import (
 	"fmt"
+	"math"
 	"reflect"
 	"regexp"
 
@@ -42,6 +43,51 @@ type tyTriangle struct {
 }
 
 func (t tyTriangle) Area() int64 { return t.A }
+
+// members of one-ofs with an INLINED discriminator that is an optional, treat-empty-as-default field:
+// the member keyed by the zero value (0, "") serializes without it
+type tyStop struct {
+	Kind   int64  `json:"kind"`
+	Reason string `json:"reason"`
+}
+type tyGo struct {
+	Kind  int64 `json:"kind"`
+	Speed int64 `json:"speed"`
+}
+type tyStopS struct {
+	Kind   string `json:"kind"`
+	Reason string `json:"reason"`
+}
+type tyGoS struct {
+	Kind  string `json:"kind"`
+	Speed int64  `json:"speed"`
+}
+
+func tyInlinedInt() schema.Type {
+	return schema.NewOneOfIntSchema[any](map[int64]schema.Object{
+		0: schema.NewStructMappedObjectSchema[tyStop]("Stop", map[string]*schema.PropertySchema{
+			"kind":   tyProp(schema.NewIntSchema(nil, nil, nil), false).TreatEmptyAsDefaultValue(),
+			"reason": tyProp(schema.NewStringSchema(nil, nil, nil), false),
+		}),
+		1: schema.NewStructMappedObjectSchema[tyGo]("Go", map[string]*schema.PropertySchema{
+			"kind":  tyProp(schema.NewIntSchema(nil, nil, nil), false).TreatEmptyAsDefaultValue(),
+			"speed": tyProp(schema.NewIntSchema(nil, nil, nil), false),
+		}),
+	}, "kind", true)
+}
+
+func tyInlinedStr() schema.Type {
+	return schema.NewOneOfStringSchema[any](map[string]schema.Object{
+		"": schema.NewStructMappedObjectSchema[tyStopS]("StopS", map[string]*schema.PropertySchema{
+			"kind":   tyProp(schema.NewStringSchema(nil, nil, nil), false).TreatEmptyAsDefaultValue(),
+			"reason": tyProp(schema.NewStringSchema(nil, nil, nil), false),
+		}),
+		"go": schema.NewStructMappedObjectSchema[tyGoS]("GoS", map[string]*schema.PropertySchema{
+			"kind":  tyProp(schema.NewStringSchema(nil, nil, nil), false).TreatEmptyAsDefaultValue(),
+			"speed": tyProp(schema.NewIntSchema(nil, nil, nil), false),
+		}),
+	}, "kind", true)
+}
 
 func tyProp(t schema.Type, required bool) *schema.PropertySchema {
 	return schema.NewPropertySchema(t, nil, required, nil, nil, nil, nil, nil)
@@ -84,6 +130,15 @@ func tyCores() []tyCore {
 		}},
 		{"oneof-string[any]", func() schema.Type {
 			return schema.NewOneOfStringSchema[any](map[string]schema.Object{"c": tyCircleObj(), "q": tySquareObj()}, "kind", false)
+		}},
+		{"any", func() schema.Type { return schema.NewAnySchema() }},
+		{"oneof-int inlined struct members", tyInlinedInt},
+		{"oneof-string inlined struct members", tyInlinedStr},
+		{"oneof-int map members", func() schema.Type {
+			return schema.NewOneOfIntSchema[any](map[int64]schema.Object{
+				0: schema.NewObjectSchema("A", map[string]*schema.PropertySchema{"x": tyProp(schema.NewAnySchema(), false)}),
+				-1: schema.NewObjectSchema("B", map[string]*schema.PropertySchema{"y": tyProp(schema.NewIntSchema(nil, nil, nil), false)}),
+			}, "k", false)
 		}},
 		{"struct-mapped", func() schema.Type { return tySquareObj() }},
 		{"typed-object", func() schema.Type {
@@ -135,11 +190,21 @@ func tyTargeted() []any {
 		tyCircle{R: 1}, &tyCircle{R: 1, Port: 8080, Tags: []string{"a"}}, tyCircle{R: 1, Tags: []string{}}, tySquare{S: 2}, &tySquare{S: 2, Backlog: &u, Small: 9, Narrow: -3, Labels: map[string]int64{"a": 1}},
 		tySquare{S: 2, Labels: map[string]int64{}}, tyTriangle{A: 1}, &tyTriangle{A: 1}, (*tyCircle)(nil), []tyCircle{{R: 1}}, map[string]tyCircle{"a": {R: 1}},
 		map[string]int64{"a": 1}, map[string]any{"a": int64(1)}, map[int64]string{1: "a"},
+		map[string]any{"kind": 0, "reason": "done"}, map[string]any{"kind": int64(1), "speed": 3}, map[string]any{"kind": "0", "reason": "r"},
+		map[string]any{"kind": uint64(0)}, map[string]any{"kind": 0.0, "reason": "x"}, map[string]any{"kind": "", "reason": "done"},
+		map[string]any{"kind": "go", "speed": 5}, map[string]any{"kind": 2}, tyStop{Reason: "s"}, &tyGo{Kind: 1, Speed: 2}, tyStopS{}, tyGoS{Kind: "go"},
+		// map keys of unusual kinds: arrays (hashable, but their conversion is not), NaN (cannot be looked up again),
+		// structs, pointers, bools, nil interfaces - alone and next to a valid discriminator
+		map[[2]string]int{{"a", "b"}: 1}, map[any]any{[2]string{"a", "b"}: 1}, map[[0]int]string{{}: "z"}, map[tyTriangle]string{{A: 1}: "t"},
+		map[any]any{"kind": "c", "r": 1, math.NaN(): 1}, map[any]any{"k": 0, math.NaN(): 1}, map[any]any{"k": int64(-1), "y": 1, math.Inf(1): 2},
+		map[any]any{"kind": "q", "s": 1, true: 2}, map[any]any{"kind": "q", "s": 1, nil: 2}, map[any]any{"x": map[any]any{[1]int{1}: 1}, "k": 0},
+		map[float64]any{math.NaN(): 1}, map[bool]any{true: 1}, map[*int]any{nil: 1}, map[any]any{&u: 1},
 	}
 }
 
 func groupTyped(s *sink, g *hx.Gen) {
 	groupTypedAPI(s, g)
+	groupTypedPaths(s, g)
 	cores := tyCores()
 	wraps := tyWraps()
 	core := cores[g.R.Intn(len(cores))]
@@ -406,6 +471,67 @@ func groupTypedAPI(s *sink, g *hx.Gen) {
 				if err1 != nil || err2 != nil || hx.Canon(hx.Enc(n1)) != hx.Canon(hx.Enc(n2)) {
 					s.finding(Finding{Prop: "C01", What: "SerializeType and Serialize return different wire forms", Detail: []string{desc, hx.Canon(hx.Enc(w1)), hx.Canon(hx.Enc(w2))}})
 				}
+			}
+		}
+	}
+}
+
+// groupTypedPaths: struct-mapped objects, one out-of-bounds field at a time, through Validate (the Go
+// value) and Unserialize (the raw map): the rejection's path must consist of PROPERTY names (json
+// tags), never Go field names, prefixed by the container segments (C17).
+func groupTypedPaths(s *sink, g *hx.Gen) {
+	u := uint(3)
+	type bad struct {
+		native any
+		raw    map[string]any
+		prop   string
+	}
+	bads := []bad{
+		{tySquare{S: 1, Narrow: 5000}, map[string]any{"s": 1, "narrow": 5000}, "narrow"},
+		{tySquare{S: 1, Narrow: -5000, Backlog: &u}, map[string]any{"s": 1, "narrow": -5000, "backlog": 3}, "narrow"},
+		{tySquare{S: 1, Labels: map[string]int64{"a": 1}, Narrow: 1001}, map[string]any{"s": 1, "labels": map[string]any{"a": 1}, "narrow": 1001}, "narrow"},
+	}
+	wraps := tyWraps()
+	w := wraps[g.R.Intn(len(wraps))]
+	sch := w.ty(tySquareObj())
+	var prefix []string
+	switch w.name {
+	case "list":
+		prefix = []string{"[0]"}
+	case "map":
+		prefix = []string{"[a]"}
+	case "property", "scope":
+		prefix = []string{"p"}
+	}
+	for _, b := range bads {
+		want := append(append([]string{}, prefix...), b.prop)
+		for _, c := range []struct {
+			op string
+			x  any
+		}{{"Validate", w.val(b.native)}, {"Unserialize", w.val(b.raw)}} {
+			var err error
+			r := hx.Guard(func() hx.Result {
+				if c.op == "Validate" {
+					err = sch.Validate(c.x)
+				} else {
+					_, err = sch.Unserialize(c.x)
+				}
+				return hx.Result{R: "ok"}
+			})
+			s.stats["typedpaths:"+c.op]++
+			desc := fmt.Sprintf("struct-mapped at %s, %s(%s)", w.name, c.op, clipStr(fmt.Sprintf("%#v", c.x), 160))
+			if r.R == "panic" {
+				s.finding(Finding{Prop: "C04", What: c.op + " panicked: " + r.Msg, Detail: []string{desc}})
+				continue
+			}
+			res := hx.ErrResult(err)
+			if err == nil {
+				s.finding(Finding{Prop: "C02", What: "an out-of-bounds field of a struct-mapped object is accepted", Detail: []string{desc}})
+				continue
+			}
+			if res.C == nil || !*res.C || !samePath(stripMarkers(res.Path), want) {
+				s.finding(Finding{Prop: "C17", What: "struct-mapped object: the rejection does not name the offending property",
+					Detail: []string{desc, "expected path " + pathText(want), "got " + res.JSON()}})
 			}
 		}
 	}
